@@ -578,6 +578,10 @@ class C20(vlib.Driver):
                                          f"generation {gi}: {d['eval_resets']} evaluation episodes for {npop} agents with eval_loop={case.get('eval_loop', 1)}"))
                     break
         for what in obs.get("args_changed", []):
+            # verdict only where the modification touches what the property states (the population handed to the function);
+            # net_config / INIT_HP / MUT_P / dataset modifications are outside the statement: recorded as evidence labels
+            if not what.startswith("pop list"):
+                continue
             out.append(Violation("arguments-modified", f"arguments-modified:{what.split(' ')[0].split(':')[-1]}:{tag}",
                                  f"the caller's {what} was modified by the call"))
         for rl in obs.get("reloaded", []):
@@ -708,6 +712,8 @@ class C20(vlib.Driver):
                 f"step-types={'mixed' if case.get('mixed') else 'uniform'}",
                 f"generations={min(len(obs.get('gens', [])), 5)}{'+' if len(obs.get('gens', [])) > 5 else ''}",
                 f"completed={bool(obs.get('completed')) and not obs.get('error')}"]
+        for what in {w.split(' ')[0] for sg in (obs.get("segments") or []) for w in sg.get("args_changed", [])}:
+            labs.append("observation:caller-argument-modified:" + what)
         labs += [f"calls={len(case.get('budgets') or [0]) + (1 if case.get('second') else 0)}",
                  f"tournament-object={'reused-for-another-population' if case.get('second') else 'own'}", f"eval_loop={case.get('eval_loop', 1)}",
                  f"handed-over={'permuted+history' if case.get('perm') else 'fresh'}"]
